@@ -219,4 +219,38 @@ Section Affine.
     - eapply lap_D_perm; eauto.
   Qed.
 
+  (* ================================================================== *)
+  (* LLTSA built from centred features (repair F42): invariant for EVERY *)
+  (* weight matrix, shifted diagonal included                            *)
+  (* ================================================================== *)
+  Lemma center_rows_translate n t (X : mat F) i a :
+    of_nat n <> 0 -> center_rows n (translate t X) i a = center_rows n X i a.
+  Proof.
+    intros Hn. unfold center_rows. rewrite mean_vec_translate by assumption. unfold translate. ring.
+  Qed.
+
+  Theorem lltsa_f42_translate n (W' : mat F) t (X : mat F) a b :
+    of_nat n <> 0 ->
+    lltsa_lhs_f42 n W' (translate t X) a b = lltsa_lhs_f42 n W' X a b /\
+    lltsa_rhs_f42 n (translate t X) a b = lltsa_rhs_f42 n X a b.
+  Proof.
+    intros Hn. unfold lltsa_lhs_f42, lltsa_rhs_f42, pencil_lhs, npe_rhs. split.
+    - apply sumn_ext. intros r _. apply sumn_ext. intros c _.
+      rewrite !center_rows_translate by assumption. reflexivity.
+    - apply sumn_ext. intros i _. rewrite !center_rows_translate by assumption. reflexivity.
+  Qed.
+
+  (* the right-hand side is the same scatter matrix as before the repair *)
+  Theorem lltsa_rhs_f42_is_lltsa_rhs n (X : mat F) a b :
+    of_nat n <> 0 -> lltsa_rhs_f42 n X a b = lltsa_rhs n X a b.
+  Proof.
+    intros Hn. unfold lltsa_rhs_f42, lltsa_rhs, npe_rhs, center_rows, feat_sum, mean_vec.
+    rewrite (sumn_ext n _ (fun i => X i a * X i b
+                 - (sumn n (fun i0 => X i0 b) / of_nat n) * X i a
+                 - (sumn n (fun i0 => X i0 a) / of_nat n) * X i b
+                 + (sumn n (fun i0 => X i0 a) / of_nat n) * (sumn n (fun i0 => X i0 b) / of_nat n)))
+      by (intros; ring).
+    rewrite sumn_add, !sumn_sub, sumn_const, !sumn_mul_l. field. exact Hn.
+  Qed.
+
 End Affine.
